@@ -20,7 +20,7 @@ LEVEL_TEXT = (
     "from the input's conditioning; follow-up vectors must be transformed with the statistics recorded at fit time (recomputed "
     "independently here). The preloaded elementwise functions are compared with Python's math module value by value."
 )
-LEVEL_NOTE = "trusts: numpy/math; tolerance policy 200*eps*kappa (mean/std) and 1e3*eps*kappa^2*degree (orthonormality), kappa=max|x|/std(x) <= 1e5"
+LEVEL_NOTE = "trusts: numpy/math; tolerance policy 200*eps*kappa (mean/std) and 1e3*eps*kappa^2*4^degree (orthonormality; cases where that exceeds 1e-4 skip the identity), kappa=max|x|/std(x) <= 1e5"
 RULE = (
     "random vectors x flags (center/scale/ddof, explicit numeric center/scale), poly degree 1..min(n-1,8) raw/orthonormal with "
     "NaN rows, replay on fresh vectors, path in {model_matrix, direct}; elementwise: 6 functions x random arguments. "
@@ -218,13 +218,18 @@ def judge_poly(case) -> Outcome:
         out.fail("c13.poly_nan_rows", f"{tag}: NaN rows of the output are not exactly the NaN rows of the input")
         return out
     P = a[ok_rows]
-    tol = 1e3 * EPS * max(kappa, 1.0) ** 2 * d + 1e-10
-    G = P.T @ P
-    if not np.allclose(G, np.eye(d), atol=tol):
-        out.fail("c13.poly_orthonormal", f"{tag}: P'P deviates from I by {np.abs(G - np.eye(d)).max():.2e} (tol {tol:.1e})")
-    s1 = np.abs(P.sum(axis=0)).max() / math.sqrt(len(xs))
-    if s1 > tol:
-        out.fail("c13.poly_orthogonal_to_constant", f"{tag}: |P'1|/sqrt(n) = {s1:.2e} (tol {tol:.1e})")
+    # rounding in the three-term recurrence grows with the conditioning of the abscissa *and* geometrically with the degree
+    # (measured on the unchanged code: 2e-9 at degree 7-8 on 10-25 points); beyond 1e-4 the identity no longer discriminates
+    tol = 1e3 * EPS * max(kappa, 1.0) ** 2 * 4.0 ** d + 1e-10
+    if tol > 1e-4:
+        out.see("orthonormality_skipped_ill_conditioned")
+    else:
+        G = P.T @ P
+        if not np.allclose(G, np.eye(d), atol=tol):
+            out.fail("c13.poly_orthonormal", f"{tag}: P'P deviates from I by {np.abs(G - np.eye(d)).max():.2e} (tol {tol:.1e})")
+        s1 = np.abs(P.sum(axis=0)).max() / math.sqrt(len(xs))
+        if s1 > tol:
+            out.fail("c13.poly_orthogonal_to_constant", f"{tag}: |P'1|/sqrt(n) = {s1:.2e} (tol {tol:.1e})")
     # span[1, P] == span of raw powers (work on a standardized abscissa for conditioning)
     z = (xs - xs.mean()) / sd
     V = np.vander(z, d + 1, increasing=True)
